@@ -8,6 +8,8 @@ repo = sys.argv[1] if len(sys.argv) > 1 else "/repo"
 fd, path = tempfile.mkstemp(suffix=".xml"); os.close(fd)
 cmd = base["cmd"].replace("<file>", path).replace("cd /repo", f"cd {repo}")
 env = dict(os.environ); env.pop("PASSLIB_VERIF", None)
+if repo != "/repo":
+    env["PYTHONPATH"] = repo
 subprocess.run(cmd, shell=True, env=env, stdout=subprocess.DEVNULL, stderr=subprocess.DEVNULL)
 passed = set()
 for tc in ET.parse(path).getroot().iter("testcase"):
